@@ -11,10 +11,11 @@ def run(tier: str, seed: int, replay=None) -> int:
     return eqlcheck.run_check(
         PROP, tier, seed, replay, profile="c02", mode="bag", n_quick=2500, n_thorough=40000,
         targets=["Props/C02.vo"],
-        in_fragment=eqlgen.in_f02, in_scope=eqlgen.in_f02, modelled_classes=[],
+        in_fragment=lambda c: eqlcheck.FRAG02.get(eqlcheck.case_key(c), False),
+        in_scope=lambda c: eqlcheck.FRAG02.get(eqlcheck.case_key(c), eqlgen.in_f02(c)), modelled_classes=[],
         trusted=[
             "hand-written model Eql/Eval.v of symbolic.py and of optimize_or (mk_or), tied by differential execution through the public API",
-            "harness/eqlgen.py (generator, in_f02 = the fragment predicate mirrored by Coq nnf + NoDup domains) and harness/eqlcheck.py",
+            "harness/eqlgen.py (generator) and harness/eqlcheck.py; the fragment of every generated case is the flag case_in_F02 COMPUTED IN COQ (theorem C02_fragment_flag: inside it the model's rows are a Permutation of the Spec's enumeration)",
             "atomic comparison semantics apply_op / py_eq (Eql/Syntax.v) shared by model and Spec",
         ],
         assume=[
